@@ -38,7 +38,9 @@ RULE = ("sampled: R in 1..8 realizations, 1..3 objectives, 0..3 constraints, bat
         "'late-failure' (batches whose first vector is clean and whose later vectors fail, mostly through a NaN in a constraint column "
         "only).  Entry path per case: EnsembleEvaluator.calculate (optionally preceded by 1..2 other calculate calls on the same "
         "object), an evaluator step, or an optimizer step with a scripted optimizer that requests the batch -- for the steps the "
-        "results are what an observer of FINISHED_EVALUATION receives and the step's exit code is checked as well.  "
+        "results are what an observer of FINISHED_EVALUATION receives and the step's exit code is checked as well.  Stream 'combined': a combined function+gradient request "
+        "(compute_functions=True, compute_gradients=True, built-in sampler) in which perturbed evaluations fail, mostly more than "
+        "perturbation_min_success tolerates: the function result of the request must be that of a functions-only request.  "
         "Non-trivial = at least two of {a failed realization, non-uniform realization weights, a filter in use, a stddev "
         "function, more than one vector}; distinct = distinct canonical case.")
 ASSUMPTIONS = [
@@ -241,6 +243,40 @@ def gen_interleaved(rng):
     return case
 
 
+def gen_combined(rng):
+    """a combined function+gradient request (calculate(compute_functions=True, compute_gradients=True), what gradient-based
+    optimizers issue) in which perturbed evaluations fail: the FUNCTION result of the request -- flags, weights in force,
+    values -- must be that of a functions-only request (function-level failures only), whatever happens to the
+    perturbations; realizations that lose too many perturbations have finite unperturbed values and positive weight"""
+    case = gen_one(rng, "main")
+    while case["R"] < 2:
+        case = gen_one(rng, "main")
+    case["stream"] = "combined"
+    R, no, nc = case["R"], case["no"], case["nc"]
+    case["B"], case["as_matrix"], case["via"], case["prelude"] = 1, False, "combined", []
+    case["vectors"] = case["vectors"][:1]
+    case["table"] = _table(rng, 1, R, no, nc, rng.choice([0, 0, 0.15, 0.3]))
+    if rng.random() < 0.5:
+        case["w"] = [rng.randint(1, 32) / 16 for _ in range(R)]
+    # mean estimators only: the stddev *gradient* estimator may abort the whole request where the function stage would not
+    if "mean" not in case["ests"]:
+        case["ests"] = ["mean"]
+    k = case["ests"].index("mean")
+    case["oem"] = [k] * no if k or rng.random() < 0.5 else None
+    case["cem"] = ([k] * nc if k or rng.random() < 0.5 else None) if nc else None
+    P = case["P"] = rng.randint(1, 4)
+    case["pmin"] = rng.choice([None, 1, P] + list(range(1, P + 1)))
+    pmin = P if case["pmin"] is None else case["pmin"]
+    pfail = []
+    for r in rng.sample(range(R), rng.randint(1, R)):
+        # mostly: more failures than the threshold tolerates
+        k = rng.randint(P - pmin + 1, P) if rng.random() < 0.75 else rng.randint(0, P - pmin)
+        pfail += [[r, p] for p in rng.sample(range(P), k)]
+    case["pfail"] = pfail
+    case["rmin"] = rng.choice([0, 0, 1, 1] + list(range(R)))
+    return case
+
+
 def gen_late_failure(rng):
     """batches in which only later vectors have failed realizations (the first vector is clean), and NaNs that sit in
     constraint columns only"""
@@ -306,6 +342,8 @@ def gen_cases(tier, rng):
         yield gen_interleaved(rng)
     for _ in range(100 if tier == "quick" else 2000):
         yield gen_late_failure(rng)
+    for _ in range(150 if tier == "quick" else 3000):
+        yield gen_combined(rng)
     if tier == "thorough":
         yield from _grid_cases()
 
@@ -360,6 +398,10 @@ def build_config(case):
         "function_estimators": [{"method": m} for m in case["ests"]],
         "realization_filters": case["filters"],
     }
+    if case.get("via") == "combined":
+        cfg["gradient"] = {"number_of_perturbations": case["P"], "perturbation_magnitudes": 0.125, "seed": 7}
+        if case["pmin"] is not None:
+            cfg["gradient"]["perturbation_min_success"] = case["pmin"]
     if case["rmin"] is not None:
         cfg["realizations"]["realization_min_success"] = case["rmin"]
     if case["oem"] is not None:
@@ -430,6 +472,7 @@ def run_impl(case):
     no, nc = case["no"], case["nc"]
     vectors = [tuple(v) for v in case["vectors"]]
     table = case["table"]
+    pfail = case.get("pfail", [])
     requests = []
 
     def evaluator(variables, ctx):
@@ -437,9 +480,18 @@ def run_impl(case):
         objs = np.empty((n, no))
         cons = np.empty((n, nc)) if nc else None
         for i in range(n):
+            r = int(ctx.realizations[i])
+            p = -1 if ctx.perturbations is None else int(ctx.perturbations[i])
+            if p >= 0:
+                # a perturbed evaluation of a combined request: finite (the unperturbed values of realization r shifted),
+                # or failed when the case says so; it must not influence the function result
+                bad = [r, p] in pfail
+                objs[i] = [math.nan if bad or math.isnan(v) else v + 0.25 * (p + 1) for v in table[0][r][0]]
+                if nc:
+                    cons[i] = [math.nan if bad or math.isnan(v) else v - 0.5 * (p + 1) for v in table[0][r][1]]
+                continue
             key = tuple(float(x) for x in variables[i])
             b = vectors.index(key) if key in vectors else -1
-            r = int(ctx.realizations[i])
             requests.append([b if b >= 0 else 4999, r])
             if b < 0 or r >= len(table[b]):
                 objs[i] = np.nan
@@ -459,7 +511,13 @@ def run_impl(case):
         x = x[0]
     via = case.get("via", "calculate")
     try:
-        if via == "calculate":
+        if via == "combined":
+            from ropt.results import FunctionResults
+            ee = EnsembleEvaluator(config, None, evaluator, pm)
+            results = ee.calculate(x, compute_functions=True, compute_gradients=True)
+            obs["outcome"] = "results"
+            obs["results"] = [_result_obs(r, nc) for r in results if isinstance(r, FunctionResults)]
+        elif via == "calculate":
             ee = EnsembleEvaluator(config, None, evaluator, pm)
             for pre in case.get("prelude", []):
                 # earlier evaluations on the same object (other vectors, other batch shapes) must leave no trace
@@ -579,7 +637,7 @@ def coq_case(case, obs):
     fouts = cq.lst(cq.lst(_fout(f) for f in outs) for outs in obs["fouts"])
     reqs = cq.lst(f"({cq.nat(b)}, {cq.nat(r)})" for b, r in obs["requests"])
     via = case.get("via", "calculate")
-    step = "None" if via == "calculate" or "exit" not in obs else \
+    step = "None" if via in ("calculate", "combined") or "exit" not in obs else \
         f"(Some ({cq.b(via == 'optimizer-step')}, {cq.z(obs['exit'])}))"
     return (f"(Build_case {cq.q(magnitude(case))} {cfg_term(case, obs)} {cq.qs(case['w'])} {cq.qs(case['ow'])} "
             f"{cq.nat(case['B'])} {table} {fouts} {reqs} {out} {step})")
@@ -696,7 +754,7 @@ def oracle(case, obs):
     if obs["requests"] != want:
         return {"clause": "batch-layout", "detail": obs["requests"][:12]}
     via = case.get("via", "calculate")
-    if via != "calculate":
+    if via in ("evaluator-step", "optimizer-step"):
         # the step delivers the results once and ends with TOO_FEW_REALIZATIONS iff some vector lacks its functions
         # (optimizer step without allow_nan: also when every realization of a vector failed)
         too_few = obs["outcome"] == "abort"
@@ -742,8 +800,10 @@ def shrink(case):
             yield {**case, "B": 1, "vectors": [case["vectors"][b]], "table": [case["table"][b]], "prelude": []}
     if case.get("prelude"):
         yield {**case, "prelude": []}
-    if case.get("via", "calculate") != "calculate":
+    if case.get("via", "calculate") not in ("calculate", "combined"):
         yield {**case, "via": "calculate"}
+    for k in range(len(case.get("pfail", []))):
+        yield {**case, "pfail": case["pfail"][:k] + case["pfail"][k + 1:]}
     for b, blk in enumerate(case["table"]):
         for r, (o, c) in enumerate(blk):
             for j, x in enumerate(o + c):
